@@ -614,3 +614,70 @@ pub fn arith_template(rng: &mut Rng, v: &mut Vec<Cmd>) {
         v.insert((pos + i).min(v.len()), c);
     }
 }
+
+/// "Goto machine": small values decide conditional hearts that all share one count, so labels
+/// collide, jumps go backwards *and* forwards, the first command can be a jump source, and ♡ can
+/// return onto the command that evaluates it.  Control-flow coincidences that the general
+/// generator reaches once in thousands of runs are the norm here.
+pub fn goto_machine(rng: &mut Rng, input_free: bool) -> Vec<Cmd> {
+    let n = rng.usize(5, 14);
+    let mut pool: Vec<u8> = Vec::new();
+    for _ in 0..rng.usize(2, 3) {
+        pool.push(rng.range(2, 12) as u8);
+    }
+    let (gh, gd) = *rng.pick(&[(1usize, 3usize), (1, 3), (3, 1), (1, 4), (2, 2)]);
+    let leaf = |rng: &mut Rng, pool: &Vec<u8>| -> RArea {
+        match rng.below(10) {
+            0 => RArea::Nil,
+            1 | 2 => RArea::Leaf(13),
+            _ => RArea::Leaf(*rng.pick(pool)),
+        }
+    };
+    let goto = |rng: &mut Rng, pool: &Vec<u8>, two: bool| -> Cmd {
+        let a = leaf(rng, pool);
+        let mut b = leaf(rng, pool);
+        if two {
+            let mut guard = 0;
+            while b == a && guard < 8 {
+                b = leaf(rng, pool);
+                guard += 1;
+            }
+        }
+        let area = match rng.below(10) {
+            0 | 1 if !two => a,
+            2..=5 => RArea::Node(0, Box::new(a), Box::new(b)),
+            6..=8 => RArea::Node(1, Box::new(a), Box::new(b)),
+            _ => {
+                let c = leaf(rng, pool);
+                RArea::Node(0, Box::new(a), Box::new(RArea::Node(1, Box::new(b), Box::new(c))))
+            }
+        };
+        // pop and push back onto the same stack when the command count says stack 3, otherwise junk
+        Cmd::new(1, gh, gd, area)
+    };
+    let mut v: Vec<Cmd> = Vec::new();
+    for i in 0..n {
+        let c = if i == 0 && rng.chance(50) {
+            goto(rng, &pool, true)
+        } else {
+            match rng.below(100) {
+                0..=44 => Cmd::new(0, rng.usize(1, 2), rng.usize(0, 4), RArea::Nil),
+                45..=81 => {
+                    let two = rng.chance(60);
+                    goto(rng, &pool, two)
+                }
+                82..=91 => Cmd::new(1, 1, rng.usize(1, 2), RArea::Nil),
+                92..=95 => Cmd::new(5, 1, 3, RArea::Nil),
+                _ => Cmd::new(0, 1, rng.usize(33, 90), RArea::Nil),
+            }
+        };
+        v.push(c);
+    }
+    // printable tail so that control-flow differences become visible
+    for _ in 0..rng.usize(1, 3) {
+        v.push(Cmd::new(0, 1, rng.usize(48, 90), RArea::Nil));
+        v.push(Cmd::new(1, 1, 1, RArea::Nil));
+    }
+    let _ = input_free;
+    v
+}
